@@ -2729,6 +2729,173 @@ def r03_21(ctx, counts) -> RuleResult:
     return res
 
 
+def r03_22(ctx, counts) -> RuleResult:
+    """the text of a type operand is expanded as a QName under handlers for both of its errors"""
+    from .common import try_context, handler_names
+    model: Model = ctx.model
+    res = RuleResult(
+        'R03.22', 'SOURCE-TEXT-QNAME-EXPANSION',
+        'namespaces.get_expanded_name raises KeyError for an undeclared prefix and ValueError for '
+        'text that is not a QName (a second colon, an empty part). Where its argument is taken '
+        'from the *source text* of an operand (`X.source`, directly or through a local, e.g. '
+        '`self[1].source.rstrip("*+?")`) the text is not limited to names: the operand of '
+        '`instance of` / `treat as` / `cast as` / `castable as` and the argument of '
+        'schema-element() / schema-attribute() can be a constructor call whose string argument '
+        'contains colons. Every such call lies in the body of a try whose handlers cover KeyError '
+        'and ValueError. `1 instance of xs:time("10:00:00")` escaped as a bare ValueError.')
+    n = 0
+    for f in sorted(model.all_functions(), key=lambda q: q.key):
+        if '.validators' in f.module.name:
+            continue
+        calls = [c for c in walk_local(f.node) if isinstance(c, ast.Call) and c.args
+                 and dotted(c.func).split('.')[-1] == 'get_expanded_name']
+        if not calls:
+            continue
+        from_source: set[str] = set()
+        for _ in range(2):
+            for x in walk_local(f.node):
+                if isinstance(x, (ast.Assign, ast.AnnAssign)) and x.value is not None:
+                    tg = x.targets if isinstance(x, ast.Assign) else [x.target]
+                    if any((isinstance(y, ast.Attribute) and y.attr == 'source')
+                           or (isinstance(y, ast.Name) and y.id in from_source)
+                           for y in ast.walk(x.value)):
+                        from_source |= {t.id for t in tg if isinstance(t, ast.Name)}
+        tc = try_context(f.node)
+        for c in calls:
+            a0 = c.args[0]
+            if not any((isinstance(y, ast.Attribute) and y.attr == 'source')
+                       or (isinstance(y, ast.Name) and y.id in from_source)
+                       for y in ast.walk(a0)):
+                continue
+            n += 1
+            covered: set[str] = set()
+            for tr, part in tc.get(id(c), []):
+                if part == 'body':
+                    for h in tr.handlers:
+                        covered |= {x.split('.')[-1] for x in handler_names(model, f.module, h)}
+            if covered & {'Exception', 'BaseException'}:
+                covered |= {'KeyError', 'ValueError'}
+            if 'LookupError' in covered:
+                covered.add('KeyError')
+            need = [e for e in ('KeyError', 'ValueError') if e not in covered]
+            res.instances.append(f'{f.key}: L{c.lineno} `{stmt_text(c)[:50]}` on source text; '
+                                 f'handlers cover {sorted(covered)}')
+            if not need:
+                res.ok()
+            else:
+                res.fail(finding('R03.22', f, c, f'QName expansion of source text without '
+                                                 f'{"/".join(need)}',
+                                 f'`{stmt_text(c)[:60]}` expands the source text of an operand; '
+                                 f'{" and ".join(need)} from get_expanded_name is not handled here: '
+                                 f'a constructor call with colons in its argument in the place of '
+                                 f'a type name (xs:time("10:00:00")) escapes as a bare '
+                                 f'{need[0]}'))
+    counts['source_text_expansions'] = n
+    if n < 4:
+        raise AnalysisError(f'QName expansions of source text located: {n} < 4')
+    return res
+
+
+ASSERT_SAMPLE = """
+class T:
+    body = None
+    def nud(self):
+        if self.parser.next_token.symbol == '*':
+            self.label = 'test'
+            return self
+        self.body = self.parser.expression()
+        return self
+    def __call__(self, *args):
+        assert self.body is not None
+        return self.body.evaluate()
+"""
+
+
+def unset_after_nud(cls_node: ast.ClassDef, attr: str) -> Optional[list[str]]:
+    """A path of the class's nud from its entry to a `return` that assigns no self.<attr> — or
+    None when every returning path assigns it (or the class has no nud)."""
+    from ..engine.cfg import CFG, node_writes
+    nuds = [b for b in cls_node.body if isinstance(b, ast.FunctionDef) and b.name == 'nud']
+    if not nuds:
+        return None
+    cfg = CFG(nuds[0])
+    rets = [nd for nd in cfg.nodes if nd.kind == 'stmt' and isinstance(nd.ast, ast.Return)]
+    path = cfg.path_avoiding(
+        [cfg.entry], lambda q: q in rets,
+        lambda q: any(t == f'self.{attr}' and not (isinstance(v, ast.Constant) and v.value is None)
+                      for t, v in node_writes(q)),
+        follow=lambda lb: lb != 'exc', skip_start=False)
+    return None if path is None else cfg.fmt_path(path)
+
+
+def r03_23(ctx, counts) -> RuleResult:
+    """an attribute the parser may leave unset is not asserted at evaluation time"""
+    model: Model = ctx.model
+    res = RuleResult(
+        'R03.23', 'PARSE-VARIANT-ASSERT',
+        'A token class whose nud() builds several variants of the construct (inline function / '
+        'function test) leaves an attribute None in some of them. `assert self.A is not None` in '
+        'an evaluation method (evaluate, select, __call__, and what they call on self) of such a '
+        'class is then a reachable AssertionError, not an invariant: the assert is accepted only '
+        'if every path of the class\'s own nud() from its entry to a `return` assigns self.A a '
+        'value (CFG must-pass-through), or the assert is reached under a fact that names the '
+        'variant (a test of self.label / self.symbol). `for-each(1, function(*))` failed '
+        '`assert self.body is not None` in _InlineFunction.__call__.')
+    sample = [c for c in ast.walk(ast.parse(ASSERT_SAMPLE)) if isinstance(c, ast.ClassDef)][0]
+    if unset_after_nud(sample, 'body') is None:
+        raise AnalysisError('R03.23: the unset path of the built-in sample is not recognised')
+    from ..engine.cfg import CFG
+    from ..engine.dataflow import branch_facts
+    n = nc = 0
+    for mod in sorted(model.modules.values(), key=lambda q: q.name):
+        if '.validators' in mod.name:
+            continue
+        for cls_node in [c for c in ast.walk(mod.tree) if isinstance(c, ast.ClassDef)]:
+            if not any(isinstance(b, ast.FunctionDef) and b.name == 'nud' for b in cls_node.body):
+                continue
+            nc += 1
+            for meth in [b for b in cls_node.body if isinstance(b, ast.FunctionDef)
+                         and b.name not in ('nud', 'led', '__init__')]:
+                asserts = [a for a in walk_local(meth) if isinstance(a, ast.Assert)
+                           and isinstance(a.test, ast.Compare) and len(a.test.ops) == 1
+                           and isinstance(a.test.ops[0], ast.IsNot)
+                           and isinstance(a.test.comparators[0], ast.Constant)
+                           and a.test.comparators[0].value is None
+                           and isinstance(a.test.left, ast.Attribute)
+                           and isinstance(a.test.left.value, ast.Name)
+                           and a.test.left.value.id == 'self']
+                if not asserts:
+                    continue
+                cfg = CFG(meth)
+                facts = branch_facts(cfg)
+                for a in asserts:
+                    n += 1
+                    attr = a.test.left.attr
+                    path = unset_after_nud(cls_node, attr)
+                    hn = [nd for nd in cfg.nodes if nd.ast is a]
+                    variant = bool(hn) and any('self.label' in fa or 'self.symbol' in fa
+                                               for fa in facts[hn[0].id])
+                    label = f'{mod.name}:{cls_node.name}.{meth.name}: assert self.{attr} is not None'
+                    res.instances.append(f'{label}: nud always sets it: {path is None}; under a '
+                                         f'variant test: {variant}')
+                    if path is None or variant:
+                        res.ok()
+                    else:
+                        fi = [g for g in model.all_functions() if g.node is meth]
+                        res.fail(finding('R03.23', fi[0] if fi else None, a,
+                                         f'assert self.{attr} is not None',
+                                         f'{cls_node.name}.nud() can return the token without '
+                                         f'assigning self.{attr} ({path[:4]}), so `assert self.'
+                                         f'{attr} is not None` in {meth.name}() is a reachable '
+                                         f'AssertionError for that variant of the construct',
+                                         **({} if fi else {'module': mod})))
+    counts['token_classes_with_nud'] = nc
+    counts['parse_variant_asserts'] = n
+    if nc < 10:
+        raise AnalysisError(f'token classes with their own nud located: {nc} < 10')
+    return res
+
+
 def run(ctx) -> dict:
     counts: dict[str, int] = {}
     results = [r03_1(ctx, counts), r03_2(ctx, counts), r03_3(ctx, counts), r03_4(ctx, counts),
@@ -2738,7 +2905,7 @@ def run(ctx) -> dict:
                r03_14(ctx, counts), r03_15(ctx, counts),
                r03_16(ctx, counts), r03_17(ctx, counts), r03_18(ctx, counts),
                r03_19(ctx, counts), r03_20(ctx, counts),
-               r03_21(ctx, counts)]
+               r03_21(ctx, counts), r03_22(ctx, counts), r03_23(ctx, counts)]
     # "no call hangs": the lock discipline of C19 is a necessary condition (a lock left held on
     # an error path blocks every later evaluation that needs it)
     from . import c19_global
